@@ -151,6 +151,9 @@ def _register_render():
     from . import src_numberify
     GROUPS['numberify'] = ('SrcNumberify.v', src_numberify.spec_numberify,
                            {'translator': src_numberify.NumberifyTranslator, 'prims': src_numberify.PRIMS})
+    from . import src_render
+    GROUPS['render'] = ('SrcRender.v', src_render.spec_render,
+                        {'translator': src_render.RenderGroup, 'prims': src_render.PRIMS})
 
 
 _register_render()
